@@ -1,7 +1,8 @@
 """Shared pieces of the salting checks (C12, C13): fixture programs, observation of the
 complete name map of a real build (H6 `name` events, compile `-p` flags, asm file names,
-position file names printed by the program itself or found in -debugdir output, the
-pclntab magic number of the linked binary), `garble map` / `garble reverse` drivers."""
+position file names printed by the program itself, the pclntab magic number of the linked
+binary; -debugdir helpers are kept for inspection only: the garbled files of a package overwrite
+each other's beginnings on the unchanged tree), `garble map` / `garble reverse` drivers."""
 import json
 import os
 import re
@@ -356,3 +357,261 @@ def observe_run(binary: Path, obs: Observation, pkgs=PKGS):
         elif f[0] == "OUT":
             out_line = line
     return out_line
+
+
+# --------------------------------------------------------------------------- C13 fixture
+# One object per row of the Salts.tla object table (kind x exported) in each of three packages:
+#   main (role main), lib (role lib), excl (role lib, or "excluded" when GOGARBLE leaves it out).
+# All names are unique across the module (prefix per package), so build-side `name` events, map
+# entries and reverse output can be matched by name alone.
+
+MOD13 = "example.com/saltmap"
+PKGS13 = {"main": MOD13, "lib": MOD13 + "/lib", "excl": MOD13 + "/excl"}
+TAG13 = "saltmaptag"
+
+
+class Obj:
+    def __init__(self, kind, exported, orig, evkind, key, owner=None, build_as=None, when="always"):
+        self.kind, self.exported, self.orig, self.evkind, self.key = kind, exported, orig, evkind, key
+        self.owner = owner          # struct / interface / variable the object belongs to
+        self.build_as = build_as    # (evkind, orig) whose build name the identifier really gets (embedded fields)
+        self.when = when            # always | tag | notag
+
+    def to_json(self):
+        return dict(self.__dict__)
+
+
+def gen_pkg13(P: str, pkgname: str, imports: list, extra_use: str = ""):
+    """Returns (files, objects) for one package; P is the unique upper-case prefix."""
+    p = P.lower()
+    objs = []
+
+    def o(kind, exported, orig, evkind, key, **kw):
+        objs.append(Obj(kind, exported, orig, evkind, key, **kw))
+
+    T, t = f"{P}ExpType", f"{p}unexpType"
+    o("type", True, T, "type", T)
+    o("type", False, t, "type", t)
+    o("field", True, f"{P}ExpTypeFieldE", "field", f"{T}.UF0", owner=T)
+    o("field", False, f"{p}expTypeFieldU", "field", f"{T}.UF1", owner=T)
+    o("field", True, f"{P}UnexpTypeFieldE", "field", f"{t}.UF0", owner=t)
+    o("field", False, f"{p}unexpTypeFieldU", "field", f"{t}.UF1", owner=t)
+    o("alias", True, f"{P}ExpAlias", "type", f"{P}ExpAlias")
+    o("alias", False, f"{p}unexpAlias", "type", f"{p}unexpAlias")
+    o("func", True, f"{P}ExpFunc", "func", f"{P}ExpFunc")
+    o("func", False, f"{p}unexpFunc", "func", f"{p}unexpFunc")
+    o("var", True, f"{P}ExpVar", "variable", f"{P}ExpVar")
+    o("var", False, f"{p}unexpVar", "variable", f"{p}unexpVar")
+    o("const", True, f"{P}ExpConst", None, f"{P}ExpConst")
+    o("const", False, f"{p}unexpConst", None, f"{p}unexpConst")
+    E = f"{P}ExpEmbedded"
+    o("type", True, E, "type", E)
+    o("embedded", True, T, "field", f"{E}.UF0", owner=E, build_as=("type", T))
+    o("embedded", True, t, "field", f"{E}.UF1", owner=E, build_as=("type", t))
+    # methods of a concrete type, in source order (objectpath indexes concrete methods in source order)
+    o("method", True, f"{P}ExpTypeXMethod", "method", f"{T}.M0", owner=T)
+    o("method", False, f"{p}expTypeUMethod", "method", f"{T}.M1", owner=T)
+    o("method", False, f"{p}unexpTypeUMethod", "method", f"{t}.M0", owner=t)
+    I, IM = f"{P}ExpIface", f"{P}ExpImpl"
+    o("type", True, I, "type", I)
+    o("imethod", True, f"{P}ExpIfaceXMethod", "method", f"{I}.UM0", owner=I)
+    o("imethod", False, f"{p}expIfaceUMethod", "method", f"{I}.UM1", owner=I)
+    o("type", True, IM, "type", IM)
+    o("field", True, f"{P}ExpImplField", "field", f"{IM}.UF0", owner=IM)
+    # the implementation's methods carry the interface methods' names (and therefore their obfuscated names)
+    o("method", True, f"{P}ExpIfaceXMethod", "method", f"{IM}.M0", owner=IM)
+    o("method", False, f"{p}expIfaceUMethod", "method", f"{IM}.M1", owner=IM)
+    L = f"{P}ExpLoneIface"
+    o("type", True, L, "type", L)
+    o("imethodlone", True, f"{P}ExpLoneXMethod", "method", f"{L}.UM0", owner=L)
+    o("imethodlone", False, f"{p}expLoneUMethod", "method", f"{L}.UM1", owner=L)
+    G, g = f"{P}ExpGen", f"{p}unexpGen"
+    o("gentype", True, G, "type", G)
+    o("gentype", False, g, "type", g)
+    o("typeparam", True, f"{P}ExpGenParam", "type", f"{G}.T0", owner=G)
+    o("typeparam", True, f"{P}UnexpGenParam", "type", f"{g}.T0", owner=g)
+    o("genfield", True, f"{P}ExpGenFieldE", "field", f"{G}.UF0", owner=G)
+    o("genfield", False, f"{p}expGenFieldU", "field", f"{G}.UF1", owner=G)
+    o("genfield", True, f"{P}UnexpGenFieldE", "field", f"{g}.UF0", owner=g)
+    o("genmethod", True, f"{P}ExpGenXMethod", "method", f"{G}.M0", owner=G)
+    o("genmethod", False, f"{p}expGenUMethod", "method", f"{G}.M1", owner=G)
+    o("typeparam", True, f"{P}ExpGenRecvParam", "type", None, owner=G)
+    o("genfunc", True, f"{P}ExpGenFunc", "func", f"{P}ExpGenFunc")
+    o("genfunc", False, f"{p}unexpGenFunc", "func", f"{p}unexpGenFunc")
+    o("typeparam", True, f"{P}ExpGenFuncParam", "type", None, owner=f"{P}ExpGenFunc")
+    A, a = f"{P}ExpAnon", f"{p}unexpAnon"
+    o("var", True, A, "variable", A)
+    o("var", False, a, "variable", a)
+    o("anonfield", True, f"{P}ExpAnonFieldE", "field", f"{A}.F0", owner=A)
+    o("anonfield", True, f"{p}expAnonFieldU", "field", f"{A}.F1", owner=A)
+    o("anonfield", False, f"{P}UnexpAnonFieldE", "field", f"{a}.F0", owner=a)
+    o("local", True, f"{p}localVar", "variable", None, owner=f"{P}ExpFunc")
+    o("func", True, f"{P}Use", "func", f"{P}Use")
+    o("func", True, f"{P}TagOnFunc", "func", f"{P}TagOnFunc", when="tag")
+    o("type", True, f"{P}TagOnType", "type", f"{P}TagOnType", when="tag")
+    o("field", True, f"{P}TagOnField", "field", f"{P}TagOnType.UF0", owner=f"{P}TagOnType", when="tag")
+    o("func", True, f"{P}TagOffFunc", "func", f"{P}TagOffFunc", when="notag")
+    o("type", True, f"{P}TagOffType", "type", f"{P}TagOffType", when="notag")
+    o("field", True, f"{P}TagOffField", "field", f"{P}TagOffType.UF0", owner=f"{P}TagOffType", when="notag")
+
+    imp = "".join(f'\t"{i}"\n' for i in imports)
+    main_go = f"""package {pkgname}
+
+import (
+{imp})
+
+type {T} struct {{
+	{P}ExpTypeFieldE int
+	{p}expTypeFieldU int
+}}
+
+type {t} struct {{
+	{P}UnexpTypeFieldE int
+	{p}unexpTypeFieldU int
+}}
+
+type {P}ExpAlias = {T}
+
+type {p}unexpAlias = {t}
+
+func {P}ExpFunc() int {{
+	{p}localVar := {p}unexpFunc()
+	return {p}localVar + {P}ExpConst
+}}
+
+func {p}unexpFunc() int {{ return {p}unexpVar + {p}unexpConst{extra_use} }}
+
+var {P}ExpVar = 1
+
+var {p}unexpVar = 2
+
+const {P}ExpConst = 1
+
+const {p}unexpConst = 2
+
+type {E} struct {{
+	{T}
+	{t}
+}}
+
+func (v {T}) {P}ExpTypeXMethod() int {{ return v.{p}expTypeUMethod() }}
+
+func (v {T}) {p}expTypeUMethod() int {{ return v.{p}expTypeFieldU }}
+
+func (v {t}) {p}unexpTypeUMethod() int {{ return v.{p}unexpTypeFieldU }}
+
+type {I} interface {{
+	{P}ExpIfaceXMethod() int
+	{p}expIfaceUMethod() int
+}}
+
+type {IM} struct{{ {P}ExpImplField int }}
+
+func (v {IM}) {P}ExpIfaceXMethod() int {{ return v.{P}ExpImplField }}
+
+func (v {IM}) {p}expIfaceUMethod() int {{ return v.{P}ExpImplField + 1 }}
+
+type {L} interface {{
+	{P}ExpLoneXMethod() int
+	{p}expLoneUMethod() int
+}}
+
+type {G}[{P}ExpGenParam any] struct {{
+	{P}ExpGenFieldE {P}ExpGenParam
+	{p}expGenFieldU int
+}}
+
+type {g}[{P}UnexpGenParam any] struct {{
+	{P}UnexpGenFieldE {P}UnexpGenParam
+}}
+
+func (v {G}[{P}ExpGenRecvParam]) {P}ExpGenXMethod() int {{ return v.{p}expGenUMethod() }}
+
+func (v {G}[{P}ExpGenRecvParam]) {p}expGenUMethod() int {{ return v.{p}expGenFieldU }}
+
+func {P}ExpGenFunc[{P}ExpGenFuncParam any](x {P}ExpGenFuncParam) {P}ExpGenFuncParam {{ return {p}unexpGenFunc(x) }}
+
+func {p}unexpGenFunc[{P}UnexpGenFuncParam any](x {P}UnexpGenFuncParam) {P}UnexpGenFuncParam {{ return x }}
+
+var {A} struct {{
+	{P}ExpAnonFieldE int
+	{p}expAnonFieldU int
+}}
+
+var {a} struct{{ {P}UnexpAnonFieldE int }}
+
+func {P}Use(lone {L}) int {{
+	e := {E}{{{T}{{1, 2}}, {t}{{3, 4}}}}
+	var i {I} = {IM}{{5}}
+	gv := {G}[int]{{{P}ExpGenFieldE: 7, {p}expGenFieldU: 8}}
+	ug := {g}[int]{{{P}UnexpGenFieldE: 9}}
+	{A}.{p}expAnonFieldU = 10
+	{A}.{P}ExpAnonFieldE = 11
+	{a}.{P}UnexpAnonFieldE = 12
+	var al {P}ExpAlias = e.{T}
+	var ual {p}unexpAlias = e.{t}
+	n := 0
+	if lone != nil {{
+		n = lone.{P}ExpLoneXMethod() + lone.{p}expLoneUMethod()
+	}}
+	return n + e.{T}.{P}ExpTypeXMethod() + e.{t}.{p}unexpTypeUMethod() + e.{P}UnexpTypeFieldE + e.{P}ExpTypeFieldE +
+		i.{P}ExpIfaceXMethod() + i.{p}expIfaceUMethod() + gv.{P}ExpGenXMethod() + gv.{P}ExpGenFieldE + ug.{P}UnexpGenFieldE +
+		{P}ExpGenFunc({A}.{p}expAnonFieldU) + {A}.{P}ExpAnonFieldE + {a}.{P}UnexpAnonFieldE + al.{P}ExpTypeFieldE +
+		ual.{p}unexpTypeFieldU + {P}ExpVar + {P}ExpFunc() + {p}tagPick()
+}}
+"""
+    tag_on = f"""//go:build {TAG13}
+
+package {pkgname}
+
+type {P}TagOnType struct{{ {P}TagOnField int }}
+
+func {P}TagOnFunc() int {{ return {P}TagOnType{{1}}.{P}TagOnField }}
+
+func {p}tagPick() int {{ return {P}TagOnFunc() }}
+"""
+    tag_off = f"""//go:build !{TAG13}
+
+package {pkgname}
+
+type {P}TagOffType struct{{ {P}TagOffField int }}
+
+func {P}TagOffFunc() int {{ return {P}TagOffType{{2}}.{P}TagOffField }}
+
+func {p}tagPick() int {{ return {P}TagOffFunc() }}
+"""
+    return {"objs.go": main_go, "tag_on.go": tag_on, "tag_off.go": tag_off}, objs
+
+
+def saltmap_program():
+    """-> (files, {label: [Obj]})"""
+    files, objects = {}, {}
+    lf, objects["lib"] = gen_pkg13("L", "lib", ["strings"], extra_use=' + len(strings.Repeat("x", 2))')
+    xf, objects["excl"] = gen_pkg13("X", "excl", [])
+    mf, objects["main"] = gen_pkg13("M", "main", [MOD13 + "/excl", MOD13 + "/lib"])
+    for n, c in lf.items():
+        files["lib/" + n] = c
+    for n, c in xf.items():
+        files["excl/" + n] = c
+    for n, c in mf.items():
+        files[n] = c
+    files["main.go"] = """package main
+
+import (
+	"example.com/saltmap/excl"
+	"example.com/saltmap/lib"
+)
+
+func main() {
+	println(MUse(nil), lib.LUse(nil), excl.XUse(nil), lib.LExpVar, excl.XExpVar)
+}
+"""
+    # the generated main package file only needs its imports in main.go
+    files["objs.go"] = files["objs.go"].replace('import (\n\t"example.com/saltmap/excl"\n\t"example.com/saltmap/lib"\n)\n', "")
+    return files, objects
+
+
+def write_saltmap(dirp):
+    files, objects = saltmap_program()
+    write_module(dirp, files, module=MOD13)
+    return Path(dirp), objects
